@@ -3,8 +3,10 @@ package main
 import (
 	"bytes"
 	"fmt"
+	"math/big"
 	"reflect"
 	"sort"
+	"strings"
 	"unsafe"
 
 	"github.com/cronokirby/saferith"
@@ -522,10 +524,71 @@ func rootAtVictimCases(w *world) []kase {
 	return out
 }
 
+// negatedSumCases (signing protocols whose last round publishes additive signature shares): a rushing signer
+// waits for the other shares of the last round and publishes  own - 2*(sum of all shares)  instead of its own,
+// so that the combined value is the NEGATION of the honest one: (R, -s) instead of (R, s).  Every share is a
+// well-formed non-zero scalar; only a final verification that pins the whole nonce point refuses the result.
+func negatedSumCases(w *world) []kase {
+	if !strings.HasPrefix(w.sc.Proto, "cmp-sign") && !strings.HasPrefix(w.sc.Proto, "cmp-presign-online") && !strings.HasPrefix(w.sc.Proto, "cmp-presign-full") {
+		return nil
+	}
+	last := 0
+	for _, d := range w.seq {
+		if d.M != nil && d.M.Broadcast && int(d.M.RoundNumber) > last {
+			last = int(d.M.RoundNumber)
+		}
+	}
+	shares := map[party.ID]*big.Int{}
+	field := ""
+	for _, d := range w.seq {
+		if d.M == nil || !d.M.Broadcast || int(d.M.RoundNumber) != last {
+			continue
+		}
+		tree, err := faults.Decode(d.M.Data)
+		if err != nil {
+			return nil
+		}
+		mm, ok := tree.(map[interface{}]interface{})
+		if !ok {
+			return nil
+		}
+		for k, v := range mm {
+			ks, _ := k.(string)
+			b, isB := v.([]byte)
+			if isB && len(b) == 32 && strings.HasPrefix(ks, "Sigma") {
+				field = "/" + ks
+				shares[d.M.From] = new(big.Int).SetBytes(b)
+			}
+		}
+	}
+	if field == "" || len(shares) != len(w.spec.IDs) {
+		return nil
+	}
+	q, _ := new(big.Int).SetString("fffffffffffffffffffffffffffffffebaaedce6af48a03bbfd25e8cd0364141", 16)
+	sum := new(big.Int)
+	for _, x := range shares {
+		sum.Add(sum, x)
+	}
+	var out []kase
+	d := w.spec.IDs[len(w.spec.IDs)-1]
+	v := new(big.Int).Sub(shares[d], new(big.Int).Lsh(sum, 1))
+	v.Mod(v, q)
+	val := v.FillBytes(make([]byte, 32))
+	slot := faults.Slot{From: d, Round: last, Broadcast: true}
+	mut := faults.Mut{Path: field, Op: "own-share-minus-twice-the-sum"}
+	f := faults.ContentFault(slot, mut, val, "replace")
+	f.Deviator = d
+	out = append(out, kase{Scenario: w.sc, Deviator: d, Slot: slot, Path: field, Op: mut.Op, Menu: "coordinated", fault: f})
+	return out
+}
+
 func specialCases(w *world, check string) []kase {
 	var out []kase
 	out = append(out, committedValueCases(w)...)
 	out = append(out, rootAtVictimCases(w)...)
+	if check != "C05" {
+		out = append(out, negatedSumCases(w)...)
+	}
 	if check != "C05" {
 		out = append(out, startCases(w)...) // deviations without a malformed message: nothing for C05 to judge
 	}
